@@ -452,8 +452,12 @@ func drawPlan(t *rapid.T, prop, family string) *Plan {
 		p = g.planC10()
 	case "C05", "C06":
 		p = g.planSSO(prop)
+	case "C02":
+		p = g.planC02()
 	case "C07":
 		p = g.planC07()
+	case "C11":
+		p = g.planC11()
 	case "C12":
 		p = g.planC12()
 	case "C13":
